@@ -3,16 +3,17 @@
 
      Results.DecodeResult, Results.decodeAuto, ResultColumn / AutoResult      /repo/proto/results.go, block.go
      the Inferable hook of every column kind: ColEnum.Infer/parse, ColDateTime.Infer,
-     ColDateTime64.Infer, ColInterval.Infer, ColArr.Infer, ColMap.Infer, ColTuple.Infer,
-     ColNamed.Infer, ColAuto.Infer (as a target)                               /repo/proto/col_*.go
+     ColDateTime64.Infer, ColInterval.Infer, ColArr.Infer, ColNullable.Infer, ColLowCardinality.Infer,
+     ColMap.Infer (splitTypeArgs), ColTuple.Infer, ColNamed.Infer, ColAuto.Infer (as a target)   /repo/proto/col_*.go
 
    model/Block.v has the same loop as a parser that returns the targets on success only and is
    parametrised by [conflicts], [infer_target], [infer_auto]; this file gives the three executable
    instances and a refinement of the loop that also returns what a failed call leaves behind
    (targets before the failing column hold their own column's data, the failing one is as the code
-   leaves it, later ones are untouched).  proofs/ResultsProofs.v shows that the refinement and
+   leaves it - after a DecodeState / DecodeColumn error that is the partially decoded column of
+   model/DecPart.v -, later ones are untouched).  proofs/ResultsProofs.v shows that the refinement and
    Block.decode_result agree.  Executable definitions only. *)
-From CH Require Export model.Block model.TypeStr.
+From CH Require Export model.Block model.TypeStr model.DecPart.
 From CH Require Import gen.Features gen.Consts gen.Codecs gen.TypeNames.
 Open Scope N_scope.
 Open Scope list_scope.
@@ -40,9 +41,32 @@ Definition fix_kind (name : bytes) (w : nat) : fixk :=
 Definition inferable_ty (t : ty) : bool :=
   match t with
   | TFix name w => match fix_kind name w with FPlain => false | _ => true end
-  | TEnum _ _ _ | TArr _ | TMap _ _ | TTuple _ | TNamed _ _ => true
+  | TEnum _ _ _ | TArr _ | TNullable _ | TLowCard _ | TMap _ _ | TTuple _ | TNamed _ _ => true
   | _ => false
   end.
+
+(* splitTypeArgs of proto/col_map.go: the arguments of a composite type, cut at the commas that are neither nested in
+   parentheses nor quoted ('...' with backslash escapes).  [cur] is the current piece, reversed. *)
+Inductive smode := MNormal | MQuote | MEsc.
+Fixpoint split_top (m : smode) (depth : Z) (cur : bytes) (s : bytes) : list bytes :=
+  match s with
+  | [] => [rev cur]
+  | c :: s' =>
+    match m with
+    | MEsc => split_top MQuote depth (c :: cur) s'                       (* the escaped character *)
+    | MQuote =>
+      if c =? 92 then split_top MEsc depth (c :: cur) s'
+      else if c =? 39 then split_top MNormal depth (c :: cur) s'
+      else split_top MQuote depth (c :: cur) s'
+    | MNormal =>
+      if c =? 39 then split_top MQuote depth (c :: cur) s'
+      else if c =? 40 then split_top MNormal (depth + 1) (c :: cur) s'
+      else if c =? 41 then split_top MNormal (depth - 1) (c :: cur) s'
+      else if (c =? 44) && (depth =? 0)%Z then rev cur :: split_top MNormal depth [] s'
+      else split_top MNormal depth (c :: cur) s'
+    end
+  end.
+Definition split_type_args (s : bytes) : list bytes := split_top MNormal 0 [] s.
 
 (* width of the columns ColAuto creates with new(ColX) *)
 Definition gen_width (go : bytes) : option nat :=
@@ -172,17 +196,35 @@ Section Res.
         | Crash _ => (t, ICrash)
         end
       else (t, IOk)
+    | TNullable d =>                                                     (* ColNullable.Infer *)
+      if inferable_ty d then
+        match elem_r s with
+        | Ok e _ => let '(d', o) := infer_st d e in (TNullable d', o)
+        | Err _ => (t, IErr)
+        | Crash _ => (t, ICrash)
+        end
+      else (t, IOk)
+    | TLowCard d =>                                                      (* ColLowCardinality.Infer *)
+      if inferable_ty d then
+        match elem_r s with
+        | Ok e _ => let '(d', o) := infer_st d e in (TLowCard d', o)
+        | Err _ => (t, IErr)
+        | Crash _ => (t, ICrash)
+        end
+      else (t, IOk)
     | TMap k v =>                                                        (* ColMap.Infer *)
       match elem_r s with
       | Ok e _ =>
-        let '(kt, vt, hascomma) := cut_byte 44 e in
-        if negb hascomma || mem_byte 44 vt then (t, IErr) else
-        let '(k', ok) := if inferable_ty k then infer_st k (trim_space kt) else (k, IOk) in
-        match ok with
-        | IOk =>
-          let '(v', ov) := if inferable_ty v then infer_st v (trim_space vt) else (v, IOk) in
-          (TMap k' v', ov)
-        | _ => (TMap k' v, ok)
+        match split_type_args e with
+        | [kt; vt] =>
+          let '(k', ok) := if inferable_ty k then infer_st k (trim_space kt) else (k, IOk) in
+          match ok with
+          | IOk =>
+            let '(v', ov) := if inferable_ty v then infer_st v (trim_space vt) else (v, IOk) in
+            (TMap k' v', ov)
+          | _ => (TMap k' v, ok)
+          end
+        | _ => (t, IErr)                                                 (* "invalid map type" *)
         end
       | Err _ => (t, IErr)
       | Crash _ => (t, ICrash)
@@ -280,7 +322,7 @@ Section Res.
         | Some ty' =>
           match dec_body b ty' nrows s2 with                                   (* Reset, DecodeState, DecodeColumn *)
           | Ok d s3 => ({| rt_name := tname ; rt_col := set_data c1 d |}, SOk s3)
-          | Err e => ({| rt_name := tname ; rt_col := set_data c1 (empty ty') |}, SFail FDecode e)
+          | Err e => ({| rt_name := tname ; rt_col := set_data c1 (body_part b ty' nrows s2) |}, SFail FDecode e)   (* what the decoder had stored: model/DecPart.v *)
           | Crash c => ({| rt_name := tname ; rt_col := set_data c1 (empty ty') |}, SCrash c)
           end
         end
